@@ -7,6 +7,10 @@ HERE = os.path.dirname(os.path.dirname(os.path.abspath(__file__)))
 
 # id: (engine, level, technique, text, note, design_ref)
 CHECKS = {
+    "C13": ("H", "model_checking",
+            "explicit enumeration of all append/parse schedules of bounded byte streams against the real parser, byte-string reference model",
+            "Every schedule in {no cut, cut, cut+parse}^(n-1) of every stream in the bounded alphabet (or every cut set up to the cut bound for long streams) is executed on the real parse_space_packets with a real deque; after every call the returned packets and the queue content are compared with the byte-string model.",
+            "garbage alphabet restricted to octets that cannot form a registered packet ID (asserted at generation time); single-threaded caller", "4/C13"),
     "C01": ("V", "exploration",
             "bounded-exhaustive enumeration of header words (each 16-bit word fully, K^2 backgrounds, edge product) against an independent reference encoder",
             "Every value of each of the three header words is executed against the real pack/unpack/from_raw/helpers and compared with a bit-field reference encoder; every out-of-range probe must raise ValueError. Complete for the stated sub-space, not for all 2^48 headers.",
